@@ -224,7 +224,11 @@ CHECKS["C15"] = {
 CHECKS["C13"] = {
     "text": "Proof (Coq) on the model: pure exporters (PROV-JSON, PROV-N, graph, ==, record ==, typed listing) return the world "
             "unchanged, hence any interleaving and repetition of them does and the same export repeated gives the same answer; "
-            "unified, flattened, graph round trip and document-from-records only append a document (frame). In the model "
+            "unified, flattened, graph round trip and document-from-records only append a document (frame); export calls anywhere "
+            "in a history leave no trace (C13_exports_leave_no_trace: the world a history builds is the world it builds with its "
+            "export calls struck out), so two histories that make the same calls apart from export calls build the same world and "
+            "every later export answers the same on both (C13_same_calls) — the twin the harness builds on the implementation: one "
+            "world exported, compared, hashed, unified and flattened after every single call, the other never. In the model "
             "exports cannot write, so for the implementation the 'does not write' half rests on the tie: the model must "
             "predict every document after every export call, and a direct oracle calls 15 exporters (incl. PROV-XML, RDF, DOT, "
             "hash) on every document in a program-dependent order with repetitions and compares strict content, record order, "
